@@ -249,6 +249,20 @@ CHECKS = {
                 "and products of a polynomial with itself the coefficients are concrete (the zero-tests are nonlinear).",
         "technique": SOLVER_TECH + "; LRA tolerance queries for the FFT",
     },
+    "C20": {
+        "level": "model_checking",
+        "text": "Bounded model checking of structure (no value-level quantifier exists in this property): ids carried by the "
+                "statements of both streams (clash patterns from a 3-name alphabet), the dependency relation (one symbolic "
+                "boolean per ordered pair), the identifiers each statement slot uses and the caller's filter answer per name are "
+                "symbolic small-domain choices enumerated by z3 with coverage queries; per path the real fuse / disambiguate / "
+                "disambiguate_and_fuse / get_dot_dependency_graph / get_read_variables run and are compared with independent "
+                "scans and a reference transitive reduction (all DAGs on <= 5 statements in 2 listing orders, chains of 6-8 with "
+                "<= 2 shortcut edges in 3 orders; repeated fusion of fused streams).",
+        "design_ref": "DESIGN.md §4 C20",
+        "note": "Trusted: the harness's identifier scan (variables of lhs, rhs, condition, excluding called function names) and "
+                "its reference transitive reduction. Whether the written name itself counts as read is left open.",
+        "technique": "bounded model checking: small-domain choices enumerated by z3 with coverage queries; path assertions against independent scans and a reference transitive reduction",
+    },
 }
 
 _PENDING = "check not built yet in this session (the design in DESIGN.md applies; will be claimed once its harness exists)"
